@@ -71,6 +71,7 @@ type c07Prov struct {
 	S   int    `json:"s"`   // score class (best variants)
 	Ph  string `json:"ph"`  // early | mid | late
 	Inv string `json:"inv"` // concrete rule an invalid response breaks: nil | niltarget | badtarget | zerofee
+	R   int    `json:"r"`   // wired family: the class of the head root the node reports (1..)
 }
 
 // c07Call is one call of a history: what every node does this time and when the call starts: "seq" after
@@ -79,6 +80,10 @@ type c07Prov struct {
 type c07Call struct {
 	At    string    `json:"at"`
 	Provs []c07Prov `json:"provs"`
+	// wired family (zz_verif_c07_wired_test.go), per root class of the call: what a header fetch does
+	// (ok0 | ok1 | fail | never) and whether the cache has been told the root beforehand
+	Hdr []string `json:"hdr"`
+	Pre []bool   `json:"pre"`
 }
 
 type c07Scenario struct {
@@ -94,6 +99,9 @@ type c07Scenario struct {
 	Slots   string    `json:"slots"` // "distinct": every call asks for another slot / block; otherwise the same one
 	Provs   []c07Prov `json:"provs"` // a single call on a fresh instance
 	Calls   []c07Call `json:"calls"` // a history of calls on one instance
+	// wired family: the strategy consults the REAL cache service behind which the header provider is the real
+	// beaconblockheader 'first' strategy ("first") or the node client itself ("direct"); "" otherwise
+	Wired string `json:"wired"`
 }
 
 func (sc *c07Scenario) pc() int64 {
@@ -168,6 +176,9 @@ type c07Hist struct {
 	cores  [][]*c07Core // [call][node]
 	latest atomic.Int32 // the call started last (for a request whose context does not say)
 	noctx  atomic.Int32 // requests whose context did not carry the call
+	// wired family: what is behind the strategy, and the score of every response when its lookup fails
+	world      *c07World
+	failScores [][]int
 }
 
 type c07CallKey struct{}
@@ -884,6 +895,12 @@ func c07Run(sc *c07Scenario, mon *c07Monitor) ([]c07Record, error) {
 	if !ok {
 		return nil, fmt.Errorf("unknown strategy %q", sc.Strat)
 	}
+	if sc.Wired != "" {
+		if len(sc.Calls) == 0 {
+			return nil, fmt.Errorf("scenario %d: a wired scenario is a history", sc.Sc)
+		}
+		kit = c07WiredKit(sc.Strat)
+	}
 	calls := sc.Calls
 	if len(calls) == 0 {
 		calls = []c07Call{{At: "seq", Provs: sc.Provs}}
@@ -940,6 +957,9 @@ func c07Run(sc *c07Scenario, mon *c07Monitor) ([]c07Record, error) {
 		}
 	}
 	launch := func(j int) {
+		if h.world != nil {
+			h.world.preload(j)
+		}
 		r := &c07CallRun{started: time.Now(), done: make(chan struct{})}
 		runs[j] = r
 		for _, c := range h.cores[j] {
@@ -1019,11 +1039,18 @@ func c07Run(sc *c07Scenario, mon *c07Monitor) ([]c07Record, error) {
 				o["v"] = c.script.V
 				o["s"] = scores[i][j]
 			}
+			if h.world != nil {
+				h.world.obs(o, j, i, r.started, h.failScores[i][j])
+			}
 			obs[i] = o
 		}
 		reset := verifsupport.Ev{"sc": sc.Sc, "ev": "Reset", "strat": sc.Strat, "variant": sc.Variant, "n": sc.N, "thr": sc.Thr,
 			"cap": sc.Cap, "T": sc.T, "obs": obs, "call": j + 1, "calls": len(calls), "pcy": int(sc.pc()), "at": calls[j].At,
 			"t0": int(r.started.Sub(histStart) / time.Millisecond), "slot": int(sc.slot(j))}
+		if h.world != nil {
+			reset["wired"], reset["hdr"], reset["pre"] = sc.Wired, calls[j].Hdr, calls[j].Pre
+			reset["hobs"] = h.world.hdrObs(j, r.started)
+		}
 		ret := verifsupport.Ev{"sc": sc.Sc, "ev": "Return", "call": j + 1, "noreturn": r.noreturn, "ok": !r.noreturn && out.err == nil,
 			"who": out.who, "val": out.val, "of": out.of, "nildata": out.nildata, "t": int(retAt / time.Millisecond),
 			"jit": int(mon.maxBetween(r.started, r.started.Add(last)) / time.Millisecond), "blocked": 0,
